@@ -127,7 +127,7 @@ namespace {
     Run g;
     Recorder g_rec;
     std::function<void(const std::string&)> g_fatal;
-    std::function<std::pair<std::string, std::string>()> g_deadlock_cls;
+    std::function<std::pair<std::string, std::string>(const std::string&)> g_fatal_cls;
     unsigned long g_progress = 0; // read by the watchdog
     unsigned long g_run_active = 0;
     bool g_verbose = false;
@@ -203,8 +203,14 @@ namespace {
     {
         g.steps++;
         sim_raw_store(&g_progress, g.steps);
-        if (g.steps > g.cfg.max_steps) {
-            fatal("livelock", "sim.livelock:step-budget", std::string("step budget exceeded at site ") + site + "\n" + describe_threads());
+        if (g.steps > g.cfg.max_steps || g.now > g.cfg.max_sim_ns) {
+            const char* verdict = g.steps > g.cfg.max_steps ? "livelock" : "timeout";
+            std::pair<std::string, std::string> cls { g.steps > g.cfg.max_steps ? "sim.livelock:step-budget" : "sim.timeout:simulated-time-budget", "" };
+            if (g_fatal_cls) {
+                auto c = g_fatal_cls(verdict);
+                if (!c.first.empty()) cls = c;
+            }
+            fatal(verdict, cls.first, cls.second + std::string("\nbudget exceeded at site ") + site + "\n" + describe_threads());
         }
         // time passes
         i64 q = g.cfg.quantum_max_ns > 0 ? static_cast<i64>(g.sched.below(static_cast<u64>(g.cfg.quantum_max_ns) + 1)) : 0;
@@ -228,7 +234,10 @@ namespace {
             i64 t = next_wakeup_time();
             if (t < 0) {
                 std::pair<std::string, std::string> cls { "sim.deadlock:no-runnable-thread", "" };
-                if (g_deadlock_cls) cls = g_deadlock_cls();
+                if (g_fatal_cls) {
+                    auto c = g_fatal_cls("deadlock");
+                    if (!c.first.empty()) cls = c;
+                }
                 fatal("deadlock", cls.first, cls.second + "\n" + describe_threads());
             }
             if (t > g.now) g.now = t;
@@ -361,6 +370,7 @@ void begin_run(const Config& cfg)
         term_set = true;
     }
     g = Run();
+    g_fatal_cls = nullptr;
     g.active = true;
     g.cfg = cfg;
     g.sched = Rng(mix(cfg.sched_seed, 0x5c4ed));
@@ -416,7 +426,7 @@ int live_thread_count()
 }
 
 void set_fatal_handler(std::function<void(const std::string&)> fn) { g_fatal = std::move(fn); }
-void set_deadlock_classifier(std::function<std::pair<std::string, std::string>()> fn) { g_deadlock_cls = std::move(fn); }
+void set_fatal_classifier(std::function<std::pair<std::string, std::string>(const std::string&)> fn) { g_fatal_cls = std::move(fn); }
 
 std::string describe_threads()
 {
